@@ -7,6 +7,7 @@ every per-level pattern (lists in their stored order), with no bound.
 -/
 import Pyiga.Proofs.MLRows
 import Pyiga.Proofs.MLSparsity
+import Pyiga.Proofs.MLMatvec
 
 namespace Pyiga.Props.C15
 open Pyiga.Index Pyiga.ML
@@ -294,5 +295,34 @@ theorem kron_partial_spec (As : List SpMat) (rows : List Nat) (restrict : Bool)
 
 example : kronPartialRaw [⟨2, 2, [(0,0,2),(1,1,3)]⟩, ⟨1, 2, [(0,0,5),(0,1,7)]⟩] [1] true
     = [(0,2,15),(0,3,21)] := by decide
+
+/-! ## the matrix-vector product -/
+
+/-- **`MLMatrix._matvec` as coded = the denoted sparse matrix applied to `x`**: on every route -- the
+`y[I] += X[i,j]*x[J]` accumulation loops of `ml_matvec_2d/3d` started from `np.zeros(shape[0])`, and
+`asmatrix().dot(x)` for one or more than three levels -- component `I` of the result is the sum of
+`X[μ] * x[J]` over exactly the stored entries `μ` that the layout specification places in row `I`
+(duplicates add up), for any number of levels, any pattern order, rectangular blocks, any data. -/
+theorem matvec_refines (S : MLStructure) (data x : List Int) :
+    S.matvecImpl data x =
+      (List.range S.shape.1).map (fun I =>
+        wsum (fun pd => pd.2 * x.getD pd.1.2 0)
+          (((S.nonzeroSpec false).zip data).filter (fun pd => pd.1.1 = I))) := by
+  rw [matvecImpl_eq, matvec_eq_rowSums]; rfl
+
+/-- the conversion to canonical sparse form (duplicates summed, sorted row-major, explicit zeros
+dropped) does not change the operator: `asmatrix().dot(x)` = the specification's product -/
+theorem asmatrix_preserves_matvec (S : MLStructure) (data x : List Int) :
+    cooMatvec S.shape.1 (S.asmatrix data) x = S.matvec data x :=
+  asmatrix_matvec S data x
+
+/-- the result has one component per row of the denoted matrix, also for rectangular level blocks
+(the pinned tree allocated `len(x)` components: repaired in /repo, commit f9cc98d) -/
+theorem matvec_length (S : MLStructure) (data x : List Int) :
+    (S.matvecImpl data x).length = prod S.rows := by
+  rw [matvec_refines]; simp [MLStructure.shape]
+
+example : ({ bs := [(2,1),(1,2)], bidx := [[(1,0),(0,0)],[(0,1),(0,0)]] } : MLStructure).matvecImpl
+    [1,2,3,4] [10,100] = [340, 120] := by decide
 
 end Pyiga.Props.C15
